@@ -584,7 +584,7 @@ func enumProdBoundaries(yield func(prodCase) bool) {
 func init() {
 	RegisterRapid("C06_producers",
 		"rapid: one of 31 producers with generated parameters: NewDense (bytes 0,1,2,255; caller mutates the slice afterwards), NewSparse (unsorted lists with repeats; caller mutates afterwards), nil variants, the named families at sizes 0..12 incl. every smallest size (definitions re-implemented in the harness; Kneser/BipartiteKneser in colex vertex order per the doc comments, Rook up to isomorphism), RandomGraph (p in {0,1,.25,.5}: determinism per seed, empty/complete), RandomTree, ComplementDense / Complement view / InducedSubgraph view (views also re-read after editing the underlying graph), LineGraphDense, SplitEdge and Contract on both representations, PruferDecode, MulticodeDecode, Graph6Decode, Sparse6Decode on reference encodings. Every result must pass the well-formedness predicate (IsEdge symmetric and loop-free, M, Degrees, ascending Neighbours consistent, no panic) and equal the definition. Non-trivial: result has an edge or is one of the smallest sizes.",
-		Budget{Checks: 5000, Shards: 1}, Budget{Checks: 30000, Shards: 8}, genProdCase, checkProdCase)
+		Budget{Checks: 5000, Shards: 1}, Budget{Checks: 400000, Shards: 16}, genProdCase, checkProdCase)
 	RegisterEnum("C06_boundaries",
 		"enumeration: every parameter-only family at every size 0..7 (Cycle >= 3, Hypercube <= 5, FoldedHypercube 1..6, Kneser/BipartiteKneser all k <= n+1 / k <= n for n <= 6, GeneralisedPetersen all valid k, Rook a,b <= 4, CompletePartite with three parts of size 0..3, FlowerSnark 3,5,7). Complete for that family.",
 		true, Budget{Shards: 1}, Budget{Shards: 1}, enumProdBoundaries, checkProdCase)
